@@ -1,7 +1,8 @@
 /-
 C11 — selection operators of `bermuda/triangle.py` and `bermuda/utils/summarize.py::split`:
-`clip` (all six bounds), `filter`, `select`, `right_edge`, `slices`, `split`, the 3-index
-`__getitem__`, `extract`. Statement by statement; every `Triangle(...)` call of the Python code is
+`clip` (all six bounds), `filter`, `select`, `right_edge`, `is_right_edge_ragged`, `slices`, `split`,
+`Triangle.__getitem__` (every index shape), `TriangleSlice.__init__` / `__getitem__`,
+`utils/slice.py`, `extract`. Statement by statement; every `Triangle(...)` call of the Python code is
 a `Triangle.ofCells` here. Core Lean only.
 -/
 import Bermuda.Model.Ops
@@ -87,11 +88,16 @@ inductive DateIdx where
   | bad
 deriving Repr, Inhabited, DecidableEq
 
-/-- the metadata index: `None` (falsy: no filtering, and not a slice), `:` or a `Metadata` -/
+/-- the metadata index: something falsy (`None`, `[]`, `0`, `""`: no filtering, and not a slice),
+`:` (i.e. `slice(None, None, None)`), a `Metadata`, or any other truthy object (`junk`: a list of
+metadata, a string, a date, a slice other than `:` …) — such an object is handed to
+`cell.metadata == metadata`, which is `False` for every cell; `isSlice` records whether it is a
+`slice` instance (it then counts for `any(isinstance(ind, slice) for ind in index)`) -/
 inductive MetaIdx where
   | none
   | all
   | is (m : Metadata)
+  | junk (isSlice : Bool)
 deriving Repr, Inhabited, DecidableEq
 
 def DateIdx.isSlice : DateIdx → Bool
@@ -100,6 +106,7 @@ def DateIdx.isSlice : DateIdx → Bool
 
 def MetaIdx.isSlice : MetaIdx → Bool
   | .all => true
+  | .junk b => b
   | _ => false
 
 /-- `period_start, period_end` of `__getitem__` after the falsy-bound defaults
@@ -122,6 +129,7 @@ def Triangle.getItem (t : List Cell) (p e : DateIdx) (m : MetaIdx) :
   -- if metadata and metadata != slice(None, None, None): filtered = self.filter(...)
   let filtered ← match m with
     | .is md => Triangle.filterP t (fun c => c.md == md)
+    | .junk _ => Triangle.filterP t (fun _ => false)   -- `cell.metadata == <non-Metadata>` is False
     | _ => pure t
   let (ps, pe) ← p.periodBounds
   let filtered ← Triangle.filterP filtered (fun c => ps ≤ c.ps && c.ps ≤ pe)
@@ -133,6 +141,123 @@ def Triangle.getItem (t : List Cell) (p e : DateIdx) (m : MetaIdx) :
     match clipped with
     | [] => throw .indexError
     | c :: _ => return .inr c
+
+/-! ## the index object of `__getitem__`, whatever its shape -/
+
+/-- one component of a tuple index: a date, a slice `start:stop`, a `Metadata`, a falsy object
+(`None`, `0`, `""`, `[]`) or any other truthy object (`junk`: string, non-empty list, number) -/
+inductive IdxVal where
+  | date (d : Date)
+  | slice (start stop : Option Date)
+  | md (m : Metadata)
+  | falsy
+  | junk
+deriving Repr, Inhabited, DecidableEq
+
+/-- `isinstance(x, slice)` / `elif isinstance(x, datetime.date)` / `else: raise ValueError` -/
+def IdxVal.toDateIdx : IdxVal → DateIdx
+  | .date d => .scalar d
+  | .slice s e => .slice s e
+  | _ => .bad
+
+/-- `if metadata and metadata != slice(None, None, None)` and the `cell.metadata == metadata` filter -/
+def IdxVal.toMetaIdx : IdxVal → MetaIdx
+  | .falsy => .none
+  | .slice none none => .all
+  | .slice _ _ => .junk true
+  | .md m => .is m
+  | .date _ => .junk false
+  | .junk => .junk false
+
+/-- the argument of `__getitem__`: an `int` (also `bool`), a positional `slice(i, j, k)`, something
+with a `len` (tuple, list, string: its components), or something without (`None`, a date:
+`len(index)` raises `TypeError`) -/
+inductive Index where
+  | int (i : Int)
+  | slice (i j k : Option Int)
+  | tuple (xs : List IdxVal)
+  | noLen
+deriving Repr, Inhabited
+
+/-- `l[i]` for a Python list: negative indices count from the end, `IndexError` out of range -/
+def pyIndex {α} (l : List α) (i : Int) : Except Err α :=
+  let n : Int := l.length
+  let k := if i < 0 then i + n else i
+  if k < 0 then .error .indexError
+  else match l[k.toNat]? with
+    | some a => .ok a
+    | none => .error .indexError
+
+/-- `l[i:j:k]` for a Python list (`ValueError` for a zero step) -/
+def pyGetSlice {α} (l : List α) (i j k : Option Int) : Except Err (List α) :=
+  match k with
+  | none => .ok (pySlice l i j)
+  | some k => if k == 0 then .error .valueError else .ok (pySliceStep l i j k)
+
+/-- `Triangle.__getitem__(index)`, every branch -/
+def Triangle.getItemAny (t : List Cell) : Index → Except Err (List Cell ⊕ Cell)
+  | .int i => do return .inr (← pyIndex t i)                  -- return self._cells[index]
+  | .slice i j k => do                                         -- return Triangle(self._cells[index])
+    let cs ← pyGetSlice t i j k
+    return .inl (← Triangle.ofCells cs)
+  | .tuple [p, e, m] => Triangle.getItem t p.toDateIdx e.toDateIdx m.toMetaIdx
+  | .tuple _ => .error .valueError                             -- "Must pass three indices …"
+  | .noLen => .error .typeError                                -- len(index)
+
+/-! ## TriangleSlice -/
+
+/-- `TriangleSlice(cells)`: `Triangle.__init__`, then
+`if len(self.slices) > 1: raise TriangleError("TriangleSlice cannot have multiple slices.")` -/
+def TriangleSlice.ofCells (cells : List Cell) : Except Err (List Cell) := do
+  let t ← Triangle.ofCells cells
+  if (Triangle.slices t).length > 1 then throw .triangleError
+  return t
+
+/-- `TriangleSlice.__getitem__` with a 2-tuple index `(period, evaluation)`. Returns a
+`TriangleSlice` when some index is a slice, else the first cell of the clipped triangle
+(`IndexError` when it is empty). `self.filter` and `.clip` return plain `Triangle`s; only the
+final result goes through the `TriangleSlice` constructor. -/
+def TriangleSlice.getItem (t : List Cell) (p e : DateIdx) : Except Err (List Cell ⊕ Cell) := do
+  let (ps, pe) ← p.periodBounds
+  -- filtered = self.filter(lambda cell: period_start <= cell.period_start <= period_end)
+  let filtered ← Triangle.filterP t (fun c => ps ≤ c.ps && c.ps ≤ pe)
+  let (es, ee) ← e.evalBounds
+  let clipped ← Triangle.clipFull filtered { minEval := es, maxEval := ee }
+  if p.isSlice || e.isSlice then
+    return .inl (← TriangleSlice.ofCells clipped)             -- TriangleSlice(clipped.cells)
+  else
+    match clipped with
+    | [] => throw .indexError                                  -- clipped._cells[0]
+    | c :: _ => return .inr c
+
+/-- `TriangleSlice.__getitem__(index)`, every branch -/
+def TriangleSlice.getItemAny (t : List Cell) : Index → Except Err (List Cell ⊕ Cell)
+  | .int i => do return .inr (← pyIndex t i)                  -- return self._cells[index]
+  | .slice i j k => do                                         -- return TriangleSlice(self._cells[index])
+    let cs ← pyGetSlice t i j k
+    return .inl (← TriangleSlice.ofCells cs)
+  | .tuple [p, e] => TriangleSlice.getItem t p.toDateIdx e.toDateIdx
+  | .tuple _ => .error .valueError                             -- "Must pass two indices …"
+  | .noLen => .error .typeError                                -- len(index)
+
+/-- `slice_to_triangle(triangle_slice)` = `Triangle(triangle_slice.cells)`;
+`triangle_to_slice(triangle)` = `TriangleSlice(triangle.cells)` (utils/slice.py) -/
+def sliceToTriangle (s : List Cell) : Except Err (List Cell) := Triangle.ofCells s
+def triangleToSlice (t : List Cell) : Except Err (List Cell) := TriangleSlice.ofCells t
+
+/-- number of distinct elements (`len(set(xs))`) -/
+def distinctCount {α} [BEq α] (xs : List α) : Nat :=
+  (xs.foldl (fun acc x => if acc.contains x then acc else acc ++ [x]) []).length
+
+/-- `t.is_right_edge_ragged`: some slice's right edge holds more than one evaluation date -/
+def raggedIn : List (Metadata × List Cell) → Except Err Bool
+  | [] => .ok false                                            -- return False
+  | (_, slc) :: rest => do                                     -- for slc in self.slices.values():
+    let re ← Triangle.rightEdge slc
+    if distinctCount (re.map (·.ev)) > 1 then return true      -- len(slc.right_edge.evaluation_dates) > 1
+    else raggedIn rest
+
+def Triangle.isRightEdgeRagged (t : List Cell) : Except Err Bool := raggedIn (Triangle.slices t)
 
 /-! ## extract -/
 
